@@ -50,7 +50,7 @@ LEVEL_NOTE = ("Trusted: Coq kernel, extraction, the renderer structure->source t
               "until they land the tree is FlatFilterFirst and F3, F6 stay known findings.")
 MODEL = ("Model.C18_main", "run_C18")
 MODEL_TARGETS = ["Model/C18_main.vo"]
-COQ_TARGETS = ["Proofs/C18_dataclass.vo", "Proofs/C18_modes.vo", "Proofs/C18_machine.vo", "Proofs/C18_presented.vo", "Proofs/C18_top.vo", "Proofs/C18_order.vo"]
+COQ_TARGETS = ["Proofs/C18_dataclass.vo", "Proofs/C18_modes.vo", "Proofs/C18_machine.vo", "Proofs/C18_presented.vo", "Proofs/C18_top.vo", "Proofs/C18_order.vo", "Proofs/C18_layout.vo"]
 RULE = ("systematic: every (parent decorator, child decorator) pair over {undecorated} + {init in (absent,True,False)} x {kw_only in (absent,True,False)} "
         "x fixed body pairs; every single field form (5 annotation kinds x value none/plain/each field(...) argument combination) under each kw-only "
         "context; seeded random diamonds A;B(A);C(A);D(B,C)|D(C,B)[;E(D)] over three names with decorated / undecorated / init=False joins and hand-written __init__ in a branch "
